@@ -4,7 +4,7 @@
 From Coq Require Import List NArith ZArith Bool.
 Import ListNotations.
 From JV Require Import Model.ScopeAst Model.ScopeIdTrack Model.ScopeGuards Model.ScopeFrameExec
-  Spec.ScopeSpecStmt Proofs.ScopeSymProofs Proofs.ScopeC03Proofs Proofs.ScopeAlphaProofs.
+  Spec.ScopeSpecStmt Proofs.ScopeSymProofs Proofs.ScopeEraseProofs Proofs.ScopeC03Proofs Proofs.ScopeAlphaProofs.
 
 (* static: a name resolves to the frame's own variable when the frame mentions it — as a
    parameter of the construct, as a variable assigned here (initialised from the enclosing
@@ -43,6 +43,20 @@ Theorem scoping_correct_loopfilter_with : forall (pynorm : name -> name) (priv :
   forall fuel, frender pynorm priv d fuel p = srender priv d fuel p.
 Proof. exact scoping_correct_ext_thm. Qed.
 Print Assumptions scoping_correct_loopfilter_with.
+
+(* macros, step 1 — macro DEFINITIONS at top level (the root frame, also inside if-branches): the
+   closure is stored, exported, printed, tested for truth, copied by assignments — but never called.
+   For render arguments without macro objects.  Proof: the generated code equals an instrumented
+   reference interpreter that keeps in the two closure fields the semantics never reads what the
+   generated code keeps there (plain equality of values), and the reference interpreter computes the
+   erasure of the instrumented one (sx_erase).
+   Missing constructs: macro CALLS and call blocks, macro definitions inside inner scopes. *)
+Theorem scoping_correct_macrodefs : forall (pynorm : name -> name) (priv : name -> bool) d p,
+  core3_prog true p = true -> wf_names p = true -> noalias pynorm p = true -> guard_rbw p d = true ->
+  (forall x v, dget N.eqb x d = Some v -> cfree' v) ->
+  forall fuel, frender pynorm priv d fuel p = srender priv d fuel p.
+Proof. exact scoping_correct_macrodefs_thm. Qed.
+Print Assumptions scoping_correct_macrodefs.
 
 (* the first-round statement (no loop filter, no with-targets) is the special case *)
 Theorem scoping_correct_core : forall (pynorm : name -> name) (priv : name -> bool) d p,
@@ -138,4 +152,14 @@ Example C03_example_ext :
   core2_prog p_ex2 = true /\ core_prog p_ex2 = false /\ wf_names p_ex2 = true /\ noalias idn p_ex2 = true /\
   guard_rbw p_ex2 d_ex2 = true /\
   frender idn nopriv d_ex2 20%nat p_ex2 = Ok ([53; 49; 49], [(10, [49])]).
+Proof. vm_compute. repeat split. Qed.
+
+(* non-vacuity of the macro-definition step: a macro defined under an if, exported, printed, copied *)
+Definition p_ex3 : list stmt :=
+  [ SIf (EName 13) [SMacro 20 [10] [SOut [EName 10; EName 11]]] [] [SSet 20 (EInt 0%Z)];
+    SSet 11 (EName 20); SOut [EName 20; EName 11]; SIf (EName 11) [SOut [EStr [121]]] [] [] ].
+Example C03_example_macrodefs :
+  core3_prog true p_ex3 = true /\ core2_prog p_ex3 = false /\ wf_names p_ex3 = true /\ guard_rbw p_ex3 [(13, VInt 1%Z)] = true /\
+  frender idn nopriv [(13, VInt 1%Z)] 20%nat p_ex3 =
+    Ok (macro_text 20 ++ macro_text 20 ++ [121], [(20, macro_text 20); (11, macro_text 20)]).
 Proof. vm_compute. repeat split. Qed.
